@@ -587,6 +587,33 @@ fn get_input(
     }
 }
 
+/// Makes sure that the image has the size of the filter region.
+///
+/// A filter layer is not bigger than 4x the canvas size (see `render_group`),
+/// so the source graphic can be smaller than the filter region, while the per-pixel
+/// primitives expect all their images to have the same size.
+fn fit_to_region(input: Image, region: IntRect) -> Result<Image, Error> {
+    if input.width() == region.width() && input.height() == region.height() {
+        return Ok(input);
+    }
+
+    let mut pixmap = tiny_skia::Pixmap::try_create(region.width(), region.height())?;
+    pixmap.draw_pixmap(
+        0,
+        0,
+        input.as_ref().as_ref(),
+        &tiny_skia::PixmapPaint::default(),
+        tiny_skia::Transform::identity(),
+        None,
+    );
+
+    Ok(Image {
+        image: Rc::new(pixmap),
+        region: input.region,
+        color_space: input.color_space,
+    })
+}
+
 trait PixmapToImageRef<'a> {
     fn as_image_ref(&'a self) -> ImageRef<'a>;
     fn as_image_ref_mut(&'a mut self) -> ImageRefMut<'a>;
@@ -773,8 +800,8 @@ fn apply_composite(
     let mut pixmap = tiny_skia::Pixmap::try_create(region.width(), region.height())?;
 
     if let Operator::Arithmetic { k1, k2, k3, k4 } = fe.operator() {
-        let pixmap1 = input1.take()?;
-        let pixmap2 = input2.take()?;
+        let pixmap1 = fit_to_region(input1, region)?.take()?;
+        let pixmap2 = fit_to_region(input2, region)?.take()?;
 
         composite::arithmetic(
             k1,
@@ -993,8 +1020,8 @@ fn apply_displacement_map(
     input1: Image,
     input2: Image,
 ) -> Result<Image, Error> {
-    let pixmap1 = input1.into_color_space(cs)?.take()?;
-    let pixmap2 = input2.into_color_space(cs)?.take()?;
+    let pixmap1 = fit_to_region(input1.into_color_space(cs)?, region)?.take()?;
+    let pixmap2 = fit_to_region(input2.into_color_space(cs)?, region)?.take()?;
 
     let mut pixmap = tiny_skia::Pixmap::try_create(region.width(), region.height())?;
 
@@ -1054,6 +1081,7 @@ fn apply_diffuse_lighting(
     ts: usvg::Transform,
     input: Image,
 ) -> Result<Image, Error> {
+    let input = fit_to_region(input, region)?;
     let mut pixmap = tiny_skia::Pixmap::try_create(region.width(), region.height())?;
 
     let light_source = transform_light_source(fe.light_source(), region, ts);
@@ -1075,6 +1103,7 @@ fn apply_specular_lighting(
     ts: usvg::Transform,
     input: Image,
 ) -> Result<Image, Error> {
+    let input = fit_to_region(input, region)?;
     let mut pixmap = tiny_skia::Pixmap::try_create(region.width(), region.height())?;
 
     let light_source = transform_light_source(fe.light_source(), region, ts);
